@@ -109,6 +109,9 @@ struct ReqMeta {
     end_id: Option<String>,
     cookie_parent: Option<usize>,
     ctx: &'static str,
+    /// Set when the record vanished under a loaded state in this request and the request cycled
+    /// the id: the abstract server state at finalisation (loaded_unchanged / changed).
+    vanish: Option<&'static str>,
 }
 
 #[derive(Clone, Debug)]
@@ -140,6 +143,8 @@ struct ReqModel {
     /// What the model says the store holds for this session right now (start of the request, or
     /// the last successful explicit sync). Used for diagnosis only.
     persisted: Kv,
+    /// The environment made the record of the old id vanish after the state had been loaded.
+    vanished: bool,
     notes: Vec<String>,
 }
 
@@ -268,6 +273,7 @@ async fn exec(session: &mut Session<'_>, op: &Op, tok: &str) -> Result<Ret, Stri
         }
         Op::CIsEmpty { via_mut: true } => Ret::Bool(session.client_mut().is_empty()),
         Op::CIsEmpty { via_mut: false } => Ret::Bool(session.client().is_empty()),
+        Op::Vanish => Ret::Unit, // handled by the runner, never reaches the session
     })
 }
 
@@ -372,6 +378,21 @@ impl<'e> Runner<'e> {
                 } else {
                     self.events.iter().find(|f| f.side == side && f.epoch == e.epoch).unwrap_or(e)
                 };
+                // the record vanished under a loaded state in a request (on this lineage, at or after
+                // the change) that cycled the id: that fault is the input class
+                if side == 's' {
+                    if let Some((vr, kind)) = relevant
+                        .iter()
+                        .filter(|r| **r >= e.req && **r < ri)
+                        .find_map(|r| self.meta[*r].vanish.map(|k| (*r, k)))
+                    {
+                        // ... unless a later request on the lineage belongs to a `ctx` class of its own
+                        let later_ctx = relevant.iter().any(|r| *r > vr && !self.meta[*r].ctx.is_empty());
+                        if !later_ctx {
+                            return (format!("record_vanished_before_cycle_id/{kind}"), false, via.into_iter().collect(), "");
+                        }
+                    }
+                }
                 let mut ctx = if !e.ctx.is_empty() { e.ctx } else { first.ctx };
                 if ctx.is_empty() {
                     // ... or any request in between, on the same lineage, that did
@@ -384,7 +405,19 @@ impl<'e> Runner<'e> {
                 }
                 (format!("{}_on_{}", first.what, first.state), same_req, via.into_iter().collect(), ctx)
             }
-            None => ("no_prior_mutation".to_string(), false, vec![], ""),
+            None => {
+                if side == 's' {
+                    if let Some((vr, kind)) =
+                        relevant.iter().filter(|r| **r < ri).find_map(|r| self.meta[*r].vanish.map(|k| (*r, k)))
+                    {
+                        let later_ctx = relevant.iter().any(|r| *r > vr && !self.meta[*r].ctx.is_empty());
+                        if !later_ctx {
+                            return (format!("record_vanished_before_cycle_id/{kind}"), false, vec![], "");
+                        }
+                    }
+                }
+                ("no_prior_mutation".to_string(), false, vec![], "")
+            }
         }
     }
 
@@ -459,11 +492,18 @@ impl<'e> Runner<'e> {
             end_id: None,
             cookie_parent: cookie_in.as_ref().map(|c| c.by),
             ctx: "",
+            vanish: None,
         });
         let replay_of_dead: Option<&'static str> =
             cookie_in.as_ref().and_then(|c| self.dead.get(&c.id).copied());
         if let Some(why) = replay_of_dead {
             self.stats.bump(&format!("replays_of_{why}_id"));
+        }
+        if let Some(c) = &cookie_in {
+            if self.meta.get(c.by).map(|m| m.vanish.is_some()).unwrap_or(false) {
+                // the state that survived the vanished record is about to be read back
+                self.stats.bump("requests_presenting_cookie_of_a_fault_request");
+            }
         }
         if cookie_in.is_some() {
             self.boundaries += 1;
@@ -532,12 +572,39 @@ impl<'e> Runner<'e> {
             synced_after_cycle: false,
             moved_to: None,
             persisted: cookie_in.as_ref().and_then(|c| self.store.get(&c.id).cloned()).unwrap_or_default(),
+            vanished: false,
             notes: vec![],
         };
         let req_debug_start = self.debug_texts.len();
 
         // ---- operations
         for (oi, op) in req.ops.iter().enumerate() {
+            if *op == Op::Vanish {
+                // Environment fault. Only where the outcome stays pinned: a live session whose
+                // server state is already loaded (record existed / state changed), no manual sync.
+                let eligible = rm.had.is_some() && !rm.invalidated && !rm.synced && matches!(rm.srv, Srv::Rec(_));
+                if eligible {
+                    let id = rm.had.clone().unwrap();
+                    if let Some(sid) = id_from(&id) {
+                        let _ = env.inner.delete(&sid).await; // raw store, behind the monitor
+                    }
+                    rm.vanished = true;
+                    rm.persisted = Kv::new();
+                    self.stats.bump("vanish_performed");
+                    self.trace.push(format!(
+                        "  R{}.{} <<environment: the record of {} vanishes>> [server:{}]",
+                        ri + 1, oi + 1, id, rm.srv_label()
+                    ));
+                } else {
+                    self.stats.bump("vanish_skipped_not_eligible");
+                }
+                continue;
+            }
+            if rm.vanished && *op == Op::Sync {
+                // a manual sync over a vanished record (update_ttl/update on an unknown id): unspecified
+                self.stats.cbump("vanish_faults", "unjudged/manual_sync_after_vanish");
+                return Err(Stop::Abandon);
+            }
             self.stats.bump("ops");
             self.stats.cbump("op_kinds", op.kind());
             // model: implicit load
@@ -693,6 +760,7 @@ impl<'e> Runner<'e> {
                     Ret::Unit
                 }
                 Op::CIsEmpty { .. } => Ret::Bool(rm.invalidated || rm.client.is_empty()),
+                Op::Vanish => Ret::Unit,
             };
 
             // real
@@ -915,6 +983,16 @@ impl<'e> Runner<'e> {
         // ---- finalisation, exactly as the middleware chain does it
         let id_kind = rm.id_kind();
         let srv_label = rm.srv_label();
+        if rm.vanished {
+            let judged = rm.cycled && !rm.invalidated && !rm.synced && matches!(rm.srv, Srv::Rec(_));
+            if !judged {
+                // e.g. existing id + unchanged state -> update_ttl on an unknown id: unspecified
+                self.stats.cbump("vanish_faults", &format!("unjudged/{id_kind}/{srv_label}"));
+                return Err(Stop::Abandon);
+            }
+            self.stats.cbump("vanish_faults", &format!("judged/{id_kind}/{srv_label}"));
+            self.meta[ri].vanish = Some(srv_label);
+        }
         let abstract_state = format!("{}/{}/client_{}", id_kind, srv_label, rm.client_label());
         self.stats.cbump("abstract_states_at_finalize", &abstract_state);
         self.path.push(format!("{src_label}:{abstract_state}{}", if rm.invalidated { ":inv" } else { "" }));
@@ -1023,6 +1101,7 @@ impl<'e> Runner<'e> {
                     self.stats.cbump("accepted_failures", &cause);
                     return Err(Stop::Abandon);
                 }
+                let cause = if rm.vanished { format!("record_vanished_before_cycle_id/{srv_label}") } else { cause };
                 let mut sig = json!({"rule": "finalize_error", "cause": cause});
                 if !rm.ctx().is_empty() {
                     sig["ctx"] = json!(rm.ctx());
@@ -1536,6 +1615,12 @@ pub async fn run_history(env: &Env, h: &History, mode: Mode) -> Outcome {
         }
     }
     r.stats.bump("histories");
+    if r.stats.n.get("vanish_performed").copied().unwrap_or(0) > 0 {
+        r.stats.bump("fault_histories");
+        if r.meta.iter().any(|m| m.vanish.is_some()) {
+            r.stats.bump("fault_histories_judged");
+        }
+    }
     let nontrivial = match mode {
         Mode::C11 => r.boundaries >= 1,
         Mode::C12 => r.stats.n.get("c12_session_cookies_checked").copied().unwrap_or(0) >= 1
